@@ -23,6 +23,11 @@ def raised_in_harness(e):
         tb = tb.tb_next
     if last is None:
         return False
+    # only the exception classes that mean "the harness looked for something that is not there": the shims
+    # and proxies of the engine raise ValueError / TypeError / OverflowError on the library's behalf, and a
+    # TypeError for a wrong argument list is raised in the caller's (= the harness') frame
+    if not isinstance(e, (AttributeError, NameError, ImportError)):
+        return False
     fn = last.tb_frame.f_code.co_filename
     return fn.startswith(_HERE + __import__("os").sep)
 
